@@ -247,7 +247,10 @@ func (s *Sorts) SortOf(t types.Type) string {
 		}
 		return "Opaque"
 	case *types.Slice:
-		return fmt.Sprintf("(Slice %s)", s.SortOf(u.Elem()))
+		srt := fmt.Sprintf("(Slice %s)", s.SortOf(u.Elem()))
+		// force the instantiation of the parametric datatype at this element sort
+		s.declare("inst:"+srt, fmt.Sprintf("(declare-const inst!%d %s)", len(s.declared), srt))
+		return srt
 	case *types.Array:
 		if n, ok := byteArray(u); ok {
 			// fixed byte arrays (hashes, keys, signatures) are opaque values with an element accessor:
@@ -268,7 +271,9 @@ func (s *Sorts) SortOf(t types.Type) string {
 		}
 		return fmt.Sprintf("(Array Int %s)", s.SortOf(u.Elem()))
 	case *types.Map:
-		return fmt.Sprintf("(Map %s %s)", s.SortOf(u.Key()), s.SortOf(u.Elem()))
+		srt := fmt.Sprintf("(Map %s %s)", s.SortOf(u.Key()), s.SortOf(u.Elem()))
+		s.declare("inst:"+srt, fmt.Sprintf("(declare-const inst!%d %s)", len(s.declared), srt))
+		return srt
 	case *types.Pointer:
 		if _, el, ok := ptrStruct(u); ok {
 			n := "R_" + typeName(el)
